@@ -187,6 +187,8 @@ pub enum TargetMode {
     /// a slow consumer: tiny receive buffer, starts reading only after 400 ms, then reads until EOF
     /// (whoever writes to it sees back-pressure and partial writes)
     SlowSink,
+    /// nothing at connect; on the first bytes received the greeting goes out in three parts 150 ms apart, then close
+    DripReply,
 }
 
 pub struct Target {
@@ -246,7 +248,7 @@ pub async fn start_target(ip: &str, mode: TargetMode, greeting: Vec<u8>) -> Targ
             c2.lock().unwrap().push(rec.clone());
             let greeting = greeting.clone();
             tokio::spawn(async move {
-                if !greeting.is_empty() {
+                if !greeting.is_empty() && mode != TargetMode::DripReply {
                     let _ = s.write_all(&greeting).await;
                 }
                 match mode {
@@ -280,6 +282,17 @@ pub async fn start_target(ip: &str, mode: TargetMode, greeting: Vec<u8>) -> Targ
                         Err(_) => return,
                         Ok(n) => {
                             rec.lock().unwrap().received.extend_from_slice(&buf[..n]);
+                            if mode == TargetMode::DripReply {
+                                let third = greeting.len().div_ceil(3).max(1);
+                                for part in greeting.chunks(third) {
+                                    if s.write_all(part).await.is_err() {
+                                        return;
+                                    }
+                                    tokio::time::sleep(Duration::from_millis(150)).await;
+                                }
+                                let _ = s.shutdown().await;
+                                return;
+                            }
                             if (mode == TargetMode::Echo || mode == TargetMode::EchoIdleClose) && s.write_all(&buf[..n]).await.is_err() {
                                 return;
                             }
